@@ -35,7 +35,9 @@ P = {
  "C13": (True, "lockset atomicity of ID generation + indexing, who-may-call, release ordering path rules over all WorkUnit.Release siblings, per-function monotonicity of constant state writes over CFG paths, frozen table of non-constant state writers",
          "Decides for every schedule and command sequence: unit IDs are generated only inside AllocateUnit's activeUnitsLock write section that also indexes the unit (no release in between, callee not self-locking), and a directory is created only for an ID neither indexed nor on disk; every Release implementation reaches the base release, where directory removal precedes the index delete, success implies the delete and a non-forced removal failure never forgets the unit; along every CFG path of every state-writing function of package workceptor (kubernetes worker excluded) constant states never decrease in stage and a terminal constant is never replaced by another; non-constant state writers are a frozen table; Cancel signals, waits, then writes Canceled, and Release cancels first. It does not decide cross-writer races or size monotonicity at run time.",
          "Trusts go/types, go/ssa, sync.RWMutex; path feasibility approximated with flag threading only."),
- "C14": (False, "who-may-open the status file; lock-before-open and deferred unlock; read-modify-write in one section; guarded-by on the in-memory copy", "", ""),
+ "C14": (True, "who-may-open table for the status file, lock-before-open / deferred-unlock path rules, read-modify-write ordering (SSA edge cuts), who-may-call the overwrite primitive, guarded-by lockset with caller-holds/accessor-site tables",
+         "Decides the locking protocol of the status record for every interleaving, not its run-time effect: only StatusFileData.{Save,Load,UpdateFullStatus} touch a status file; each opens it only on the success edge of lockStatusFile for the same name and after registering the deferred unlock of the acquired handle; the lock file is <file>.lock via lockedfile; UpdateFullStatus runs the caller's modification only after re-reading a non-empty record and writes only after the modification; UpdateBasicStatus delegates to it; the overwrite-without-re-read Save is called only from AllocateUnit; the in-memory status is accessed only with statusLock held, in constructors, or through lock-free accessors whose every call site holds the unit's lock. It does not decide that the advisory lock excludes on the real file system.",
+         "Trusts go/types, go/ssa, lockedfile semantics; lock identity by access path (no alias analysis)."),
  "C15": (True, "SSA edge cuts + dominance: every effectful work command is dominated by the success edge of processSignature with value-identical work type/sign flag/unit; decision and verifier success conditions; who-may-call tables",
          "Decides, for every command and token, that allocate/cancel/release/results effects in the work ControlFunc are unreachable unless processSignature (about the same work type, sign flag and unit) returned nil in the same arm; that processSignature returns nil only for a non-verifying type with an empty token, a Unix-socket peer, or a successful VerifySignature; that VerifySignature returns nil only after non-empty token, configured key, key load, ParseWithClaims with claims validation enabled into RegisteredClaims, token.Valid and VerifyAudience(this node, required); that the key func yields a typed *rsa.PublicKey; and that no other control command reaches the effect functions. It does not decide JWT/RSA cryptography or clocks.",
          "Trusts go/types, go/ssa, and the stated golang-jwt/v4 contracts (default parser validates exp/nbf; method/key type agreement)."),
